@@ -6,11 +6,13 @@ _c = importlib.util.module_from_spec(_spec); _spec.loader.exec_module(_c)
 GROUP = dict(
     name='pkgtype',
     theory=['base.rs'],
+    uses='use core::cmp::Ordering;',
     canary='    axiom_string_from(); broadcast use axiom_ascii_to_lower;',
     units=_c.TYPES + [
         dict(id='T.PackageType', kind='enum', name='PackageType', file='purl/src/package_type.rs',
              attrs='#[derive(Clone, Copy)]'),
         dict(id='T.PackageError', kind='enum', name='PackageError', file='purl/src/package_type.rs'),
+        dict(id='theory.qualkeys', kind='raw', text=_c.theory_text('qualkeys.rs')),
         dict(id='theory.types', kind='raw', text=_c.theory_text('types.rs')),
         dict(id='theory.pkgtype', kind='raw', text=_c.theory_text('pkgtype.rs')),
         _c.PURL_SHAPE,
